@@ -68,11 +68,14 @@ MerkleOK(n, threads) ==
         /\ parallel \cap serialTop = {}
 
 \* ---- row-matrix transposition -------------------------------------------------------------------------------------
-CONSTANT TransposeCapped
+CONSTANT TransposeCapped, TransposeMinBatchCells
 Min2(a, b) == IF a <= b THEN a ELSE b
+\* TransposeMinBatchCells = 0: the code; = c > 0: the variant "no batch smaller than c cells" (batches also capped by cells / c), which
+\* for a number of segments that is not a power of two gives a batch count that does not divide the number of rows: refuted
 TransposeBatches(rows, segs, threads) ==
     LET nb == IF rows * segs < 1024 THEN 1 ELSE 2 * NextPow2(threads)
-    IN  IF TransposeCapped THEN Min2(nb, rows) ELSE nb
+        nc == IF TransposeCapped THEN Min2(nb, rows) ELSE nb
+    IN  IF TransposeMinBatchCells > 0 /\ rows * segs >= 1024 THEN Min2(nc, (rows * segs) \div TransposeMinBatchCells) ELSE nc
 \* cell index (row-major, one cell per row and segment) written by batch b for its local row i and segment j, and the cell
 \* the serial code writes for the same (row, segment)
 TransposeOK(rows, segs, threads) ==
